@@ -876,6 +876,7 @@ pub fn main(args: &[String]) {
     full.extend(args.iter().cloned());
     enter_namespace(&full);
     quiet_panics_keep_log();
+    install_info_logger();
     match args.first().map(|s| s.as_str()) {
         Some("dns") => dns(&args[1..]),
         Some("http") | Some("full") => crate::righttp::http(&args[1..]),
